@@ -2691,7 +2691,20 @@ class Engine:
             if isinstance(x, MapRef):
                 st.heap[x.obj] = GoMap((), {})
                 return None
-            raise Unsupported("clear on slice")
+            if x is None or x is NIL_SLICE:
+                return None
+            if isinstance(x, Slice):
+                et = self.ir.under(ins["args_t"][0])["elem"] if "args_t" in ins else None
+                if et is None:
+                    at = self.ir.under(self.objtype[x.arr.obj])
+                    et = at["elem"]
+                z = self.zero(et)
+                arr = list(self.load(st, x.arr))
+                for i in range(x.off, x.off + x.len):
+                    arr[i] = z
+                self.store(st, x.arr, tuple(arr))
+                return None
+            raise Unsupported("clear on %s" % type(x).__name__)
         if name == "new":
             raise Unsupported("builtin new")
         raise Unsupported("builtin " + name)
